@@ -75,6 +75,28 @@ CHECKS = {
         note="Variants are applied to all templated declarations of a module at once. One known finding (consequence of "
              "C02-deep-param).",
         design="6/C13"),
+    "C03": dict(
+        category="model_checking",
+        technique="TLA+ registration machine (PyBind.tla: Expected, DefSubmodule/Register) run by TLC on scanned events "
+                  "of the generated translation unit",
+        text="For TLC-derived modules and fixtures x option sets (top namespace at every depth incl. non-matching, "
+             "ignore lists, serialization) the generated C++ is scanned into registration events; TLC computes the "
+             "expected registrations from the instantiated tree and runs the machine: every event must be an enabled "
+             "step (submodule created once and before use, binding pending, placed in an existing module) and nothing "
+             "may remain pending.",
+        note="Order of registrations is free. Trusted: the scanner (harness/proj_py.py, self-validated on the goldens). "
+             "dir() of a compiled module is compared only in the C04/C09 executed tiers.",
+        design="6/C03"),
+    "C04": dict(
+        category="model_checking",
+        technique="same machine as C03; forwarding fields of each binding record (lambda parameters, callee, call "
+                  "arguments, keyword names/defaults, return presence, static vs instance, property writability, "
+                  "enumerator values, base class) compared by TLC",
+        text="Static half: every registration's forwarding fields must equal the record the specification derives "
+             "from the declaration (PyBind!DiffField names the first differing field).",
+        note="The executed half (compiled module driven through PySession behaviours) is described in DESIGN.md and "
+             "added when built; until then forwarding is judged on the generated text only.",
+        design="6/C04"),
 }
 
 NOT_YET = "not yet built in this session; planned per DESIGN.md section 6"
